@@ -55,6 +55,7 @@ func (net *vfNet) restart(pos int) error {
 	if err != nil {
 		return err
 	}
+	n.pv.log = append(n.pv.log, old.pv.log...)
 	net.nodes[pos] = n
 	net.nodeOf[old.idx] = n
 	if net.offered != nil {
@@ -73,8 +74,8 @@ func TestVerifC04(t *testing.T) {
 
 	// ---- (a) ticker differential: only the LAST accepted tick fires
 	nt := cases
-	if nt > 40 {
-		nt = 40
+	if nt > 12 {
+		nt = 12
 	}
 	for c := 0; c < nt; c++ {
 		r := vfFork(seed^0x7711, uint64(c))
@@ -82,13 +83,21 @@ func TestVerifC04(t *testing.T) {
 		tk.Start()
 		k := 1 + r.Intn(8)
 		var parts []string
+		t0 := time.Now()
 		for i := 0; i < k; i++ {
-			ti := timeoutInfo{Duration: 60 * time.Millisecond, Height: uint64(1 + r.Intn(2)), Round: uint32(1 + r.Intn(3)), Step: cstypes.RoundStepType(1 + r.Intn(8))}
+			ti := timeoutInfo{Duration: 250 * time.Millisecond, Height: uint64(1 + r.Intn(2)), Round: uint32(1 + r.Intn(3)), Step: cstypes.RoundStepType(1 + r.Intn(8))}
 			parts = append(parts, fmt.Sprintf("%d:%d:%d", ti.Height, ti.Round, int(ti.Step)))
 			tk.ScheduleTimeout(ti)
 		}
+		if time.Since(t0) > 80*time.Millisecond {
+			// the scheduling loop itself was descheduled for a long time (loaded machine): the
+			// intermediate timers may have fired; not a usable sample
+			o.Stat("ticker.discarded-slow-scheduling")
+			tk.Stop()
+			continue
+		}
 		got := "none"
-		deadline := time.After(3 * time.Second)
+		deadline := time.After(20 * time.Second)
 	wait:
 		for {
 			select {
@@ -171,8 +180,21 @@ func TestVerifC04(t *testing.T) {
 					} else {
 						net.parts = nil
 					}
-				case x < 943:
+				case x < 950:
+					// restart a node from its database. Without the WAL (C05's subject) a node that
+					// has already signed at its height would forget its votes and double-sign, which
+					// is a fault, not a restart: only nodes that signed nothing yet at their
+					// current height are restarted here.
 					pos := r.Intn(len(net.nodes))
+					signed := false
+					for _, sr := range net.nodes[pos].pv.log {
+						if sr.h == net.nodes[pos].cs.Height {
+							signed = true
+						}
+					}
+					if signed {
+						continue
+					}
 					if err := net.restart(pos); err != nil {
 						o.Viol("restart-failed", desc+" "+err.Error())
 						return
@@ -261,11 +283,29 @@ func TestVerifC04(t *testing.T) {
 				if vfEnvInt("VERIF_DEBUG", 0) > 0 {
 					for _, nd := range net.nodes {
 						fmt.Printf("node%d H=%d R=%d step=%d commitRound=%d proposal=%v pb=%v parts=%v\n", nd.idx, nd.cs.Height, nd.cs.Round, nd.cs.Step, nd.cs.CommitRound, nd.cs.Proposal != nil, nd.cs.ProposalBlock != nil, nd.cs.ProposalBlockParts.StringShort())
-						for rr := uint32(1); rr <= nd.cs.Round+1; rr++ {
+						for rr := uint32(1); rr <= nd.cs.Round+1 && rr < 14; rr++ {
 							if pv := nd.cs.Votes.Prevotes(rr); pv != nil {
-								fmt.Printf("   r=%d prevotes=%v precommits=%v\n", rr, pv.BitArray(), nd.cs.Votes.Precommits(rr).BitArray())
+								line := fmt.Sprintf("   r=%d", rr)
+								for i := 0; i < nd.cs.Validators.Size(); i++ {
+									a, b := "?", "?"
+									if v := pv.GetByIndex(uint32(i)); v != nil {
+										a = (vfBlockKey(v.BlockID) + "------")[:6]
+									}
+									if v := nd.cs.Votes.Precommits(rr).GetByIndex(uint32(i)); v != nil {
+										b = (vfBlockKey(v.BlockID) + "------")[:6]
+									}
+									line += fmt.Sprintf(" [%d pv=%s pc=%s]", i, a, b)
+								}
+								fmt.Println(line)
 							}
 						}
+						vs := nd.cs.state.Validators.Copy()
+						line := "   proposers by round from state.Validators:"
+						for rr := 1; rr < 14; rr++ {
+							line += fmt.Sprintf(" %d", net.valIdx[vs.GetProposer().Address])
+							vs.IncrementProposerPriority(1)
+						}
+						fmt.Println(line, " lockedRound", nd.cs.LockedRound, "validRound", nd.cs.ValidRound)
 					}
 					for h, ms := range net.allMsgs {
 						cnt := map[string]int{}
@@ -279,7 +319,23 @@ func TestVerifC04(t *testing.T) {
 				}
 				sig := "no-commit-in-synchronous-suffix"
 				if restarts > 0 {
+					// do the nodes still agree about whose turn it is? (F4: a restarted node loads
+					// Validators with NextValidators' priorities)
+					seqs := map[string]bool{}
+					for _, nd := range net.nodes {
+						if nd.cs.Height != goal {
+							continue
+						}
+						vs := nd.cs.state.Validators.Copy()
+						q := ""
+						for rr := 0; rr < 6; rr++ {
+							q += fmt.Sprint(net.valIdx[vs.GetProposer().Address], ",")
+							vs.IncrementProposerPriority(1)
+						}
+						seqs[q] = true
+					}
 					sig = "no-commit-in-synchronous-suffix-after-restart"
+					detail += fmt.Sprintf(" proposer-sequences-in-disagreement=%v", len(seqs) > 1)
 				}
 				o.Viol(sig, fmt.Sprintf("%s prefix=%d restarts=%d goal=%d bound=%d rounds:%s", desc, prefix, restarts, goal, bound, detail))
 			}
